@@ -39,6 +39,12 @@ def ev(t, env):
         if isinstance(o, tuple) and o and o[0] == "opt" and o[1] is not None:
             return o[1]
         raise Unknown(mir.show(t)[:120])
+    if k == "agg" and len(t) > 3 and len(t[3]) == 1 and t[3][0][0] == "0" and not str(t[1]).startswith("core::"):
+        return ev(t[3][0][1], env)      # newtype constructor: the value of its only field
+    if k == "field" and t[2] == "0" and isinstance(t[1], tuple) and t[1] and t[1][0] in ("param", "deref", "local", "call") and len(t) > 3 and not str(t[3]).startswith("tuple"):
+        v = env(t[1])
+        if v is not None and isinstance(v, int):
+            return v                     # the only field of a newtype value
     if k == "index":
         base = ev(t[1], env)
         ix = ev(t[2], env) if t[2] is not None else None
@@ -76,6 +82,10 @@ def ev(t, env):
             return a & b
         if op == "BitOr":
             return a | b
+        if op == "BitXor":
+            return a ^ b
+        if op in ("Eq", "Ne", "Lt", "Le", "Gt", "Ge"):
+            return {"Eq": a == b, "Ne": a != b, "Lt": a < b, "Le": a <= b, "Gt": a > b, "Ge": a >= b}[op]
         raise Unknown(mir.show(t))
     if k == "call":
         nm = t[1].rsplit("::", 1)[-1]
@@ -85,6 +95,17 @@ def ev(t, env):
             if b >= 64:
                 return ("opt", None)
             return ("opt", (a >> b) if nm == "checked_shr" else ((a << b) % U64))
+        if nm in ("checked_add", "checked_sub", "checked_mul") and len(args) == 2 and t[1].startswith("core::num"):
+            a, b = ev(args[0], env), ev(args[1], env)
+            if isinstance(a, int) and isinstance(b, int):
+                v = a + b if nm == "checked_add" else (a - b if nm == "checked_sub" else a * b)
+                return ("opt", v if 0 <= v < U64 else None)
+        if nm in ("expect", "unwrap") and len(args) >= 1 and "option::Option" in t[1]:
+            o = ev(args[0], env)
+            if isinstance(o, tuple) and o and o[0] == "opt":
+                if o[1] is None:
+                    raise Overflow("unwrap on None")
+                return o[1]
         if nm == "unwrap_or" and len(args) == 2:
             o = ev(args[0], env)
             if isinstance(o, tuple) and o[0] == "opt":
